@@ -51,6 +51,22 @@ func (r *FileRestorer) verifLemmaCommentThenSpace(out ast.Node, name string, dec
 	return len(r.lines) - n
 }
 
+// A block comment, even one that spans lines, is not a line break: the spacing that follows it is
+// rendered in full.
+//@ func (r *FileRestorer) verifLemmaBlockCommentThenSpace
+//@ requires inv: r.inv()
+//@ requires space: 0 <= space && space <= 2
+//@ requires ordinary: !isBad(next)
+//@ requires ends_in_block_comment: len(decs) > 0 && hasPrefix(decs[len(decs)-1], "/*")
+//@ ensures spacing_in_full: result == nl(space)
+
+func (r *FileRestorer) verifLemmaBlockCommentThenSpace(out ast.Node, name string, decs dst.Decorations, end bool, next dst.Node, space dst.SpaceType) int {
+	r.applyDecorations(out, name, decs, end)
+	n := len(r.lines)
+	r.applySpace(next, "Before", space)
+	return len(r.lines) - n
+}
+
 //@ func (r *FileRestorer) verifLemmaAfterOpeningToken
 //@ requires inv: r.inv()
 //@ requires space: 0 <= before && before <= 2
